@@ -458,6 +458,8 @@ fn spawn_async_ao_list_in_task'''),
         ('int-append-saturates', 'brush-core/src/variables.rs', '''                                .wrapping_add(suffix.parse::<i64>().unwrap_or(0));''', '''                                .saturating_add(suffix.parse::<i64>().unwrap_or(0));'''),
     ],
     'U10': [
+        ('quoted-glob-characters-ask-for-pathname-expansion', 'brush-core/src/patterns.rs', "        } else if !self.pieces.iter().any(|piece| {\n            matches!(piece, PatternPiece::Pattern(_))\n                && requires_expansion(piece.as_str(), self.enable_extended_globbing)\n        }) {", "        } else if !self.pieces.iter().any(|piece| {\n            requires_expansion(piece.as_str(), self.enable_extended_globbing)\n        }) {"),
+        ('component-decision-ignores-the-extglob-option', 'brush-core/src/patterns.rs', "            if !component.iter().any(|piece| {\n                matches!(piece, PatternPiece::Pattern(_))\n                    && requires_expansion(piece.as_str(), self.enable_extended_globbing)\n            }) {", "            if !component.iter().any(|piece| {\n                matches!(piece, PatternPiece::Pattern(_))\n                    && requires_expansion(piece.as_str(), true)\n            }) {"),
         ('dollar-not-regex-special', 'brush-core/src/regex.rs', "'\\\\' | '^' | '$' | '.' | '|'", "'\\\\' | '^' | '.' | '|'"),
         ('translator-drops-escape-of-plus', 'brush-parser/src/pattern.rs', "'*' | '?' | '.' | '+' | '^'", "'*' | '?' | '.' | '^'"),
         ('literal-piece-not-escaped', 'brush-core/src/patterns.rs', '''                        if crate::regex::regex_char_is_special(c) {
